@@ -524,11 +524,40 @@ def r3_tables(ctx, prog):
     else:
         r.viol("R3:CurrencyCode#default", "default currency code differs from the documented USD", file=PF)
     fn = ast.fn(PF, "from_args", impl_self="CurrencyCode")
-    t = flatp(show(fn.body)) if fn else ""
-    if has(t, 'from_args_helperargs,"currency_code",|arg|{matchTinyAsciiStr::from_strarg.to_string.as_str{Err_=>None;Okcode=>SomeSelfcode}}') and "`currency_code`" in md:
-        r.inst("CurrencyCode/`currency_code`", "any 3-letter ASCII code, else default")
+    if fn is None:
+        r.missing("CurrencyCode::from_args")
     else:
-        r.viol("R3:CurrencyCode#from_args", "currency_code lookup changed: `%s`" % t, file=PF)
+        # evaluated: the argument named `currency_code` whose value is a valid code is the code; anything else is the default
+        from rules import absint as _ai
+        from rules.absint import AEval as _AE, C as _C, L as _L, T as _T
+        _ai.set_program(ast)
+        _S = lambda x: ("str", x)  # noqa: E731
+
+        def tiny(a):
+            v = a[0]
+            ok_ = v[0] == "str" and 1 <= len(v[1]) <= 3 and v[1].isascii()
+            return _C("Ok", _C("Tiny", v)) if ok_ else _C("Err", _ai.A("tiny-error"))
+        casesc = [([("currency_code", "EUR")], "EUR"), ([("width", "narrow"), ("currency_code", "JPY")], "JPY"), ([("currency_code", "EURO"), ("currency_code", "CHF")], "CHF"),
+                  ([("currency_code", "EURO")], None), ([("code", "EUR")], None), ([], None), (None, None)]
+        badc = None
+        try:
+            for argl, wantc in casesc:
+                ev = _AE(funcs={})
+                ev.path_builtins["TinyAsciiStr::from_str"] = tiny
+                ev.path_builtins["tinystr::TinyAsciiStr::from_str"] = tiny
+                argv = _C("None") if argl is None else _C("Some", _L(*[_T(_S(k_), _S(v_)) for k_, v_ in argl]))
+                got = ev.run_fn(fn, [argv])
+                if isinstance(got, str):
+                    raise _ai.Unknown(got)
+                wv = _C("CurrencyCode", _C("Tiny", _S(wantc))) if wantc else _ai.DEFAULT
+                if got != wv and badc is None:
+                    badc = "arguments %s give %s, expected %s" % (argl, _ai.fmt(got)[:80], _ai.fmt(wv))
+            if badc or "`currency_code`" not in md:
+                r.viol("R3:CurrencyCode#from_args", "currency_code lookup changed: %s" % (badc or "the book does not mention `currency_code`"), file=PF, line=fn.line)
+            else:
+                r.inst("CurrencyCode/`currency_code`", "any (up to) 3-letter ASCII code, else default (7 argument lists evaluated)")
+        except _ai.Unknown as u:
+            r.viol("R3:CurrencyCode#undecided", "CurrencyCode::from_args cannot be interpreted on the current code (%s): not decided (fail closed)" % str(u)[:200], file=PF, line=fn.line)
     fn = ast.fn(MF, "to_token_stream", impl_self="CurrencyCode")
     qs = [flat(tok_text(q["tokens"])) for q in xquotes(fn.body)] if fn else []
     if qs == ["l_i18n_crate::reexports::icu::currency::formatter::CurrencyCode(l_i18n_crate::reexports::tinystr!(3,#code))"] and has(flatp(show(fn.body)), "letcode=Literal::stringself.0.as_str;"):
@@ -605,26 +634,67 @@ def _r3_helper(r, ctx):
     else:
         r.viol("R3:parse_formatter_args#trim", "an untrimmed component is returned or the separators changed: %s" % "; ".join(bad[:3]), file=fn.file, line=fn.line)
     fn = ctx.ast.fn(PV, "parse_formatter")
-    t = flatp(show(fn.body)) if fn else ""
-    if has(t, "let(name,args)=Self::parse_formatter_argss;matchFormatter::from_name_and_argsname,args.as_deref{OkSomeformatter=>Okformatter;OkNone=>ErrError::UnknownFormatter") and has(t, "Errformatter=>ErrError::DisabledFormatter"):
-        r.inst("parse_formatter", "unknown name -> UnknownFormatter, disabled feature -> DisabledFormatter")
+    if fn is None:
+        r.missing("parse_formatter")
     else:
-        r.viol("R3:parse_formatter", "parse_formatter changed", file=PV)
+        # evaluated with Formatter::from_name_and_args as an oracle answering each of its three outcomes: the name and arguments handed
+        # over are the parsed ones; Ok(Some(f)) -> f, Ok(None) -> UnknownFormatter(name), Err(f) -> DisabledFormatter(f)
+        absint.set_program(ctx.ast)
+        badp = None
+        try:
+            for outcome, wantk in ((K("Ok", K("Some", A("FMT"))), ("Ok", None)), (K("Ok", K("None")), ("Err", "UnknownFormatter")), (K("Err", A("FMT")), ("Err", "DisabledFormatter"))):
+                seen = []
+                ev = AEval(funcs={})
+                ev.path_builtins["Formatter::from_name_and_args"] = lambda a, outcome=outcome, seen=seen: (seen.append(a), outcome)[1]
+                got = ev.run_fn(fn, [S(" number ( grouping_strategy : never ) "), A("locale"), A("key_path")])
+                if isinstance(got, str):
+                    raise absint.Unknown(got)
+                ok_args = len(seen) == 1 and seen[0][0] == S("number") and seen[0][1] == K("Some", L(T(S("grouping_strategy"), S("never"))))
+                kind = got[2][0][1] if got[0] == "ctor" and got[1] == "Err" and got[2] and got[2][0][0] == "ctor" else None
+                if kind in ("Box", "Into"):
+                    kind = got[2][0][2][0][1] if got[2][0][2] and got[2][0][2][0][0] == "ctor" else kind
+                okk = (got == K("Ok", A("FMT"))) if wantk[0] == "Ok" else (got[0] == "ctor" and got[1] == "Err" and kind == wantk[1])
+                if not (ok_args and okk) and badp is None:
+                    badp = "with from_name_and_args answering %s (asked %s) parse_formatter gives %s" % (absint.fmt(outcome), [absint.fmt(x)[:60] for x in (seen[0] if seen else [])], absint.fmt(got)[:120])
+            if badp:
+                r.viol("R3:parse_formatter", "parse_formatter changed: %s" % badp, file=PV, line=fn.line)
+            else:
+                r.inst("parse_formatter", "trimmed name and arguments go to from_name_and_args; unknown name -> UnknownFormatter, disabled feature -> DisabledFormatter")
+        except absint.Unknown as u:
+            r.viol("R3:parse_formatter#undecided", "cannot be interpreted on the current code (%s): not decided (fail closed)" % str(u)[:200], file=PV, line=fn.line)
     # t_format! uses the same table
-    fn = ctx.ast.fn(TF, "parse_formatter")
-    t = flatp(show(fn.body)) if fn else ""
-    fn2 = ctx.ast.fn(TF, "parse", impl_self="ParsedInput")
-    t2 = flatp(show(fn2.body)) if fn2 else ""
-    if has(t, "leptos_i18n_parser::utils::formatter::Formatter::from_name_and_argsformatter_name,Some&args") and has(t2, "leptos_i18n_parser::utils::formatter::Formatter::from_name_and_argsformatter_name,None") and has(t, "input.parse_terminatedparse_arg,Token!;"):
-        r.inst("t_format!", "same Formatter::from_name_and_args, arguments `name: value` separated by `;`")
+    # t_format! resolves its formatter through the same table: who calls Formatter::from_name_and_args (MIR call graph) - the value
+    # parser and the t_format! input parser, nobody resolves names on their own
+    progm = ctx.mir("main")
+    callers = sorted({bb.name.split("::{closure")[0] for (bb, _i, _t) in progm.callers_of(r"utils::formatter::Formatter::from_name_and_args$")})
+    tf_callers = [c for c in callers if "t_format::parsed_input" in c]
+    pv_callers = [c for c in callers if c.endswith("ParsedValue::parse_formatter")]
+    others = [c for c in callers if c not in tf_callers and c not in pv_callers]
+    if tf_callers and pv_callers and not others:
+        r.inst("t_format!", "same Formatter::from_name_and_args (called from %s)" % ", ".join(c.split("::")[-1] for c in tf_callers))
     else:
-        r.viol("R3:t_format#table", "t_format! no longer resolves the formatter with Formatter::from_name_and_args", file=TF)
+        r.viol("R3:t_format#table", "Formatter::from_name_and_args is called from %s: t_format! and the value parser must both (and only they) resolve formatter names through it" % callers, file=TF)
     fn = ctx.ast.fn(TF, "convert_formatter_result")
-    t = flatp(show(fn.body)) if fn else ""
-    if has(t, "OkSomeformatter=>Okformatter.into;OkNone=>Errerr;Errformatter=>Errsyn::Error::newspan,formatter.err_message"):
-        r.inst("t_format! errors", "unknown name / disabled feature are compile errors")
+    if fn is None:
+        r.missing("convert_formatter_result")
     else:
-        r.viol("R3:t_format#errors", "convert_formatter_result changed", file=TF)
+        badc = None
+        try:
+            for res, wantc in ((K("Ok", K("Some", A("FMT"))), "ok"), (K("Ok", K("None")), "the-unknown-name-error"), (K("Err", A("FMT")), "disabled")):
+                ev = AEval(funcs={}, builtins={"into": lambda rv, a: A("into:" + rv[1]) if rv[0] == "atom" else NotImplemented, "err_message": lambda rv, a: A("message-of:" + rv[1]) if rv[0] == "atom" else NotImplemented})
+                ev.path_builtins["syn::Error::new"] = lambda a: K("SynError", a[0], a[1])
+                got = ev.run_fn(fn, [res, A("SPAN"), A("the-unknown-name-error")])
+                if isinstance(got, str):
+                    raise absint.Unknown(got)
+                wv = K("Ok", A("into:FMT")) if wantc == "ok" else (K("Err", A("the-unknown-name-error")) if wantc != "disabled" else K("Err", K("SynError", A("SPAN"), A("message-of:FMT"))))
+                if got != wv and badc is None:
+                    badc = "%s becomes %s, expected %s" % (absint.fmt(res), absint.fmt(got)[:100], absint.fmt(wv))
+            if badc:
+                r.viol("R3:t_format#errors", "convert_formatter_result changed: %s" % badc, file=TF, line=fn.line)
+            else:
+                r.inst("t_format! errors", "unknown name / disabled feature are compile errors (the formatter's own message at the formatter's span)")
+        except absint.Unknown as u:
+            r.viol("R3:t_format#undecided", "convert_formatter_result cannot be interpreted on the current code (%s): not decided (fail closed)" % str(u)[:200], file=TF, line=fn.line)
 
 
 NAMES = {
